@@ -496,7 +496,10 @@ func wmExec(ops []string) []string {
 			case <-all:
 				w2.Stop()
 				res[i] = fmt.Sprintf("early=%d", early.Load())
-			case <-time.After(10 * time.Second):
+			case <-time.After(herdPatience()):
+				// (once a herd has stayed parked, the following ones are given little time: the failure is established and the
+				// suite has to finish so that the op sequence, not a stack dump at the suite's time limit, is the replay)
+				herdTimeouts.Add(1)
 				res[i] = fmt.Sprintf("early=%d still-waiting-after-DoneUntil=%d", early.Load(), w2.DoneUntil())
 			}
 		case "waitctx":
@@ -513,6 +516,15 @@ func wmExec(ops []string) []string {
 		}
 	}
 	return res
+}
+
+var herdTimeouts atomic.Int64
+
+func herdPatience() time.Duration {
+	if herdTimeouts.Load() > 0 {
+		return 300 * time.Millisecond
+	}
+	return 10 * time.Second
 }
 
 func wmGen(r *rand.Rand, n, length int) []Case {
